@@ -65,13 +65,19 @@ func mustURL(s string) *url.URL {
 }
 
 type atomicWriter struct {
-	mu    sync.Mutex
-	lines int
+	mu     sync.Mutex
+	lines  int
+	broken int // writes that were not exactly one complete record line
 }
 
 func (w *atomicWriter) Write(p []byte) (int, error) {
 	w.mu.Lock()
 	w.lines += strings.Count(string(p), "\n")
+	// a trace record is one JSON document on one line, handed over in one piece: a sink shared by
+	// concurrent requests (a file, a pipe) would otherwise see records run into each other
+	if len(p) == 0 || p[len(p)-1] != '\n' || !json.Valid(p[:len(p)-1]) || strings.Count(string(p), "\n") != 1 {
+		w.broken++
+	}
 	w.mu.Unlock()
 	return len(p), nil
 }
@@ -135,7 +141,12 @@ func poolOps(p interface {
 	case "upsert":
 		i, _ := strconv.Atoi(parts[1])
 		w, _ := strconv.Atoi(parts[2])
-		_ = p.UpsertServer(mustURL(serverNames[i%len(serverNames)]), roundrobin.Weight(w))
+		u := mustURL(serverNames[i%len(serverNames)])
+		if w%2 == 1 { // the same server registered again with rotated credentials / another query
+			u.User = url.UserPassword("svc", "secret"+parts[2])
+			u.RawQuery = "zone=" + parts[2]
+		}
+		_ = p.UpsertServer(u, roundrobin.Weight(w))
 	case "remove":
 		i, _ := strconv.Atoi(parts[1])
 		_ = p.RemoveServer(mustURL(serverNames[i%len(serverNames)]))
@@ -557,6 +568,9 @@ func newTracer() *instance {
 		after: func() string {
 			w.mu.Lock()
 			defer w.mu.Unlock()
+			if w.broken > 0 {
+				return fmt.Sprintf("%d writes to the trace sink were not exactly one complete JSON record line", w.broken)
+			}
 			if int64(w.lines) != requests.Load() || served.Load() != requests.Load() {
 				return fmt.Sprintf("%d requests, %d trace records, %d handler invocations", requests.Load(), w.lines, served.Load())
 			}
